@@ -16,12 +16,15 @@ if "--seeds" in args:
     seeds = opt("--seeds", "").split(",")
 all_checks = ["C%02d" % i for i in range(1, 21)]
 checks_opt = opt("--checks", "")
-out_path = os.path.join(HERE, "seeded", "matrix.json")
+out_path = os.path.join(HERE, "seeded", "own_matrix.json" if "--own" in args else "matrix.json")
 matrix = json.load(open(out_path)) if os.path.exists(out_path) else {}
 
 def run_seed(sid):
     meta = json.load(open(os.path.join(HERE, "seeded", sid, "meta.json")))
     checks = checks_opt.split(",") if checks_opt else all_checks
+    if "--own" in args:
+        # only the check of the seed's own property and the other checks its meta.json names as reporting it
+        checks = sorted({meta["property"]} | {d["check"] for d in meta.get("detected_by", []) if re.fullmatch(r"C\d\d", d.get("check", ""))})
     wt = tempfile.mkdtemp(prefix="seedwt_", dir="/tmp")
     os.rmdir(wt)
     res = {}
